@@ -10,4 +10,7 @@ def groups(tier):
             Group('compute_public', 'keyx', 'C12/dh.c', entry='h_compute_public', replace=['network__KeyExchange__modexp'],
                   defines=['CALLEE_VIEW'], clause='public key = modexp(g, private, p)'),
             Group('shared_secret', 'keyx', 'C12/dh.c', entry='h_shared', replace=['network__KeyExchange__modexp', 'crypto__Sha256__digest'],
-                  defines=['CALLEE_VIEW'], unwind=5, clause='shared secret = SHA-256(big-endian modexp(remote mod p, private, p))')]
+                  defines=['CALLEE_VIEW'], unwind=5, clause='shared secret = SHA-256(big-endian modexp(remote mod p, private, p))'),
+            Group('session_key.register', 'keymgr', 'C12/keymgr_reg.c', entry='h_register', replace=['crypto__HmacSha256__compute', 'peer_id_to_string'],
+                  unwind=34, kind='unbounded', backend=['sat', 'cadical'],
+                  clause='register_session_with_material: from any prior state the peer\'s session key becomes HMAC(shared secret, material) (single-key view of contexts_)')]
